@@ -43,12 +43,21 @@ Gen/Decorators.vos Gen/Decorators.vok Gen/Decorators.required_vos: Gen/Decorator
 Gen/Dispatch.vo Gen/Dispatch.glob Gen/Dispatch.v.beautified Gen/Dispatch.required_vo: Gen/Dispatch.v Core/Base.vo Core/Prog.vo Py/Sig.vo Sem/Interp.vo Sem/Model.vo
 Gen/Dispatch.vio: Gen/Dispatch.v Core/Base.vio Core/Prog.vio Py/Sig.vio Sem/Interp.vio Sem/Model.vio
 Gen/Dispatch.vos Gen/Dispatch.vok Gen/Dispatch.required_vos: Gen/Dispatch.v Core/Base.vos Core/Prog.vos Py/Sig.vos Sem/Interp.vos Sem/Model.vos
+Gen/ObjPin.vo Gen/ObjPin.glob Gen/ObjPin.v.beautified Gen/ObjPin.required_vo: Gen/ObjPin.v 
+Gen/ObjPin.vio: Gen/ObjPin.v 
+Gen/ObjPin.vos Gen/ObjPin.vok Gen/ObjPin.required_vos: Gen/ObjPin.v 
 Sem/Scenario.vo Sem/Scenario.glob Sem/Scenario.v.beautified Sem/Scenario.required_vo: Sem/Scenario.v Core/Base.vo Core/Prog.vo Py/Sig.vo Sem/Interp.vo Sem/InterpFacts.vo Sem/Model.vo Sem/Show.vo Gen/State.vo Sem/ScnSwitch.vo Gen/Validators.vo Gen/HasPatcher.vo Gen/Contracts.vo Gen/Dispatch.vo
 Sem/Scenario.vio: Sem/Scenario.v Core/Base.vio Core/Prog.vio Py/Sig.vio Sem/Interp.vio Sem/InterpFacts.vio Sem/Model.vio Sem/Show.vio Gen/State.vio Sem/ScnSwitch.vio Gen/Validators.vio Gen/HasPatcher.vio Gen/Contracts.vio Gen/Dispatch.vio
 Sem/Scenario.vos Sem/Scenario.vok Sem/Scenario.required_vos: Sem/Scenario.v Core/Base.vos Core/Prog.vos Py/Sig.vos Sem/Interp.vos Sem/InterpFacts.vos Sem/Model.vos Sem/Show.vos Gen/State.vos Sem/ScnSwitch.vos Gen/Validators.vos Gen/HasPatcher.vos Gen/Contracts.vos Gen/Dispatch.vos
 Sem/ScnMarkers.vo Sem/ScnMarkers.glob Sem/ScnMarkers.v.beautified Sem/ScnMarkers.required_vo: Sem/ScnMarkers.v Core/Base.vo Sem/Model.vo Sem/Show.vo Gen/HasPatcher.vo Gen/Rules.vo
 Sem/ScnMarkers.vio: Sem/ScnMarkers.v Core/Base.vio Sem/Model.vio Sem/Show.vio Gen/HasPatcher.vio Gen/Rules.vio
 Sem/ScnMarkers.vos Sem/ScnMarkers.vok Sem/ScnMarkers.required_vos: Sem/ScnMarkers.v Core/Base.vos Sem/Model.vos Sem/Show.vos Gen/HasPatcher.vos Gen/Rules.vos
+Sem/ObjModel.vo Sem/ObjModel.glob Sem/ObjModel.v.beautified Sem/ObjModel.required_vo: Sem/ObjModel.v Core/Base.vo Core/Prog.vo Py/Sig.vo Sem/Interp.vo Sem/Model.vo
+Sem/ObjModel.vio: Sem/ObjModel.v Core/Base.vio Core/Prog.vio Py/Sig.vio Sem/Interp.vio Sem/Model.vio
+Sem/ObjModel.vos Sem/ObjModel.vok Sem/ObjModel.required_vos: Sem/ObjModel.v Core/Base.vos Core/Prog.vos Py/Sig.vos Sem/Interp.vos Sem/Model.vos
+Sem/ScnObj.vo Sem/ScnObj.glob Sem/ScnObj.v.beautified Sem/ScnObj.required_vo: Sem/ScnObj.v Core/Base.vo Core/Prog.vo Py/Sig.vo Sem/Interp.vo Sem/InterpFacts.vo Sem/Model.vo Sem/Show.vo Gen/State.vo Sem/ScnSwitch.vo Gen/Validators.vo Gen/HasPatcher.vo Gen/Contracts.vo Gen/Dispatch.vo Sem/Scenario.vo Sem/ObjModel.vo
+Sem/ScnObj.vio: Sem/ScnObj.v Core/Base.vio Core/Prog.vio Py/Sig.vio Sem/Interp.vio Sem/InterpFacts.vio Sem/Model.vio Sem/Show.vio Gen/State.vio Sem/ScnSwitch.vio Gen/Validators.vio Gen/HasPatcher.vio Gen/Contracts.vio Gen/Dispatch.vio Sem/Scenario.vio Sem/ObjModel.vio
+Sem/ScnObj.vos Sem/ScnObj.vok Sem/ScnObj.required_vos: Sem/ScnObj.v Core/Base.vos Core/Prog.vos Py/Sig.vos Sem/Interp.vos Sem/InterpFacts.vos Sem/Model.vos Sem/Show.vos Gen/State.vos Sem/ScnSwitch.vos Gen/Validators.vos Gen/HasPatcher.vos Gen/Contracts.vos Gen/Dispatch.vos Sem/Scenario.vos Sem/ObjModel.vos
 Sem/ScnSwitch.vo Sem/ScnSwitch.glob Sem/ScnSwitch.v.beautified Sem/ScnSwitch.required_vo: Sem/ScnSwitch.v Core/Base.vo Core/Prog.vo Sem/Interp.vo Sem/Show.vo Gen/State.vo
 Sem/ScnSwitch.vio: Sem/ScnSwitch.v Core/Base.vio Core/Prog.vio Sem/Interp.vio Sem/Show.vio Gen/State.vio
 Sem/ScnSwitch.vos Sem/ScnSwitch.vok Sem/ScnSwitch.required_vos: Sem/ScnSwitch.v Core/Base.vos Core/Prog.vos Sem/Interp.vos Sem/Show.vos Gen/State.vos
@@ -127,3 +136,9 @@ Thm/C13/IterStep.vos Thm/C13/IterStep.vok Thm/C13/IterStep.required_vos: Thm/C13
 Props/C13.vo Props/C13.glob Props/C13.v.beautified Props/C13.required_vo: Props/C13.v Core/Base.vo Core/Prog.vo Py/Sig.vo Sem/Interp.vo Sem/InterpFacts.vo Sem/Model.vo Gen/Validators.vo Gen/HasPatcher.vo Gen/Contracts.vo Sem/Scenario.vo Sem/Show.vo Sem/ScnSwitch.vo Thm/Common/Loops.vo Thm/Common/PatchFacts.vo Thm/Common/PatchBracket.vo Thm/C08/FrameCore.vo Thm/C02/Post.vo Thm/C06/Transparent.vo Thm/C13/IterStep.vo
 Props/C13.vio: Props/C13.v Core/Base.vio Core/Prog.vio Py/Sig.vio Sem/Interp.vio Sem/InterpFacts.vio Sem/Model.vio Gen/Validators.vio Gen/HasPatcher.vio Gen/Contracts.vio Sem/Scenario.vio Sem/Show.vio Sem/ScnSwitch.vio Thm/Common/Loops.vio Thm/Common/PatchFacts.vio Thm/Common/PatchBracket.vio Thm/C08/FrameCore.vio Thm/C02/Post.vio Thm/C06/Transparent.vio Thm/C13/IterStep.vio
 Props/C13.vos Props/C13.vok Props/C13.required_vos: Props/C13.v Core/Base.vos Core/Prog.vos Py/Sig.vos Sem/Interp.vos Sem/InterpFacts.vos Sem/Model.vos Gen/Validators.vos Gen/HasPatcher.vos Gen/Contracts.vos Sem/Scenario.vos Sem/Show.vos Sem/ScnSwitch.vos Thm/Common/Loops.vos Thm/Common/PatchFacts.vos Thm/Common/PatchBracket.vos Thm/C08/FrameCore.vos Thm/C02/Post.vos Thm/C06/Transparent.vos Thm/C13/IterStep.vos
+Thm/C09/Compose.vo Thm/C09/Compose.glob Thm/C09/Compose.v.beautified Thm/C09/Compose.required_vo: Thm/C09/Compose.v Core/Base.vo Core/Prog.vo Py/Sig.vo Sem/Interp.vo Sem/Model.vo Sem/Scenario.vo Sem/ObjModel.vo Sem/ScnObj.vo
+Thm/C09/Compose.vio: Thm/C09/Compose.v Core/Base.vio Core/Prog.vio Py/Sig.vio Sem/Interp.vio Sem/Model.vio Sem/Scenario.vio Sem/ObjModel.vio Sem/ScnObj.vio
+Thm/C09/Compose.vos Thm/C09/Compose.vok Thm/C09/Compose.required_vos: Thm/C09/Compose.v Core/Base.vos Core/Prog.vos Py/Sig.vos Sem/Interp.vos Sem/Model.vos Sem/Scenario.vos Sem/ObjModel.vos Sem/ScnObj.vos
+Props/C09.vo Props/C09.glob Props/C09.v.beautified Props/C09.required_vo: Props/C09.v Core/Base.vo Core/Prog.vo Py/Sig.vo Sem/Interp.vo Sem/Model.vo Sem/Scenario.vo Sem/ObjModel.vo Sem/ScnObj.vo Gen/ObjPin.vo Thm/C09/Compose.vo
+Props/C09.vio: Props/C09.v Core/Base.vio Core/Prog.vio Py/Sig.vio Sem/Interp.vio Sem/Model.vio Sem/Scenario.vio Sem/ObjModel.vio Sem/ScnObj.vio Gen/ObjPin.vio Thm/C09/Compose.vio
+Props/C09.vos Props/C09.vok Props/C09.required_vos: Props/C09.v Core/Base.vos Core/Prog.vos Py/Sig.vos Sem/Interp.vos Sem/Model.vos Sem/Scenario.vos Sem/ObjModel.vos Sem/ScnObj.vos Gen/ObjPin.vos Thm/C09/Compose.vos
